@@ -1,2 +1,95 @@
-"""Static descriptions that go into the evidence files."""
-META = {}
+"""Static descriptions that go into MANIFEST.json and the evidence files."""
+
+BUILT = set()   # filled at the bottom
+
+COMMON_ASSUMPTIONS = [
+    'gcc, the /venv interpreter and libraries (numpy, PyTables/HDF5, netCDF4, scipy), libc stdio behave as themselves',
+    'the generated Cython C/C++ found on disk corresponds to the .pyx files (no Cython in this sandbox to re-derive it); '
+    'extension modules are recompiled from the working tree on every run',
+    'a clean batch is evidence, not proof: schedules and fault sequences are sampled by a seeded search, not enumerated',
+]
+
+META = {
+    'C18': dict(
+        engine='E1 handle-sim', design_ref='DESIGN.md §3/C18, §2',
+        technique='deterministic simulation: seeded interleaving of raw file-handle clients against a cursor reference model, ddmin-minimised replay',
+        rule='one evaluation = one seeded run: 1-2 files written by mdtraj from a tagged trajectory, 1-3 raw handles, 4-30 (thorough 60) '
+             'scheduler-chosen operations {read(n), read(), seek(k), seek(d,1), tell, len, reopen, gc} with or without atom_indices; '
+             'after every step the result is compared with a per-handle position model (frame ids decoded from the tag, plus time and cell). '
+             'distinct_nontrivial = number of distinct abstract traces (sequence of (format, op, position class, crossing-EOF, offset-cache warm, subset) tuples) '
+             'among runs with >= 3 state-touching steps',
+        components={'real': ['mdtraj file classes (h5, xtc, trr, dcd, nc, mdcrd, xyz, lammpstrj, dtr) rebuilt from the working tree', 'PyTables', 'netCDF4', 'libc stdio', 'file system (tmpfs)'],
+                    'stub': ['scheduler (which handle steps next)'], 'not_run': ['arc (no seek/tell/len in this tree, no writer): not exercised']},
+        expected_probes=['read_crossing_eof', 'read_at_eof', 'seek_after_eof', 'offset_cache_built_mid_stream',
+                         'second_handle_open_on_same_file', 'read_with_atom_indices'],
+        level_text='Seeded exploration of handle histories: every explored history is checked step by step against a trivial cursor model; '
+                   'violations are minimised and replayed in a fresh interpreter. Histories are sequential interleavings of atomic calls, so the per-handle '
+                   'sequential specification is the whole linearizability condition. Sampling, not enumeration.',
+        level_note='Files are written by mdtraj itself (oracles are relative and tagged with a 50x margin over format precision); '
+                   'TRR end-of-file bookkeeping is an open known finding (pyx, not rebuildable).',
+        assumptions=COMMON_ASSUMPTIONS + ['files read by the handles are written by mdtraj\'s own writers; a precondition check (fresh sequential read returns frames 0..N-1) guards every run'],
+    ),
+    'C02': dict(
+        engine='E1 handle-sim', design_ref='DESIGN.md §3/C02, §2',
+        technique='deterministic simulation: seeded interleaving of iterload generators, one-shot loaders and raw handles on shared files/topologies; oracle = slice of the full load',
+        rule='one evaluation = one seeded run: 1-3 files of one format, up to 6 live iterload generators stepped one next() at a time between one-shot '
+             'loads (stride/atom_indices/frame/list of files, shared or fresh Topology argument) and raw-handle noise; each exhausted generator and each load is '
+             'compared bit-for-bit (float32) with the corresponding slice of md.load(file). distinct_nontrivial = distinct abstract traces '
+             '(format, client op, flag class) among runs with >= 3 steps. Runs with a single client are configuration sampling (counted in extra_counters.single_client_runs).',
+        components={'real': ['md.load / md.load_frame / md.iterload and every format reader, rebuilt from the working tree', 'PyTables', 'netCDF4'],
+                    'stub': ['scheduler (which client steps next)']},
+        expected_probes=['generators_interleaved', 'list_load_shared_top_with_ai'],
+        level_text='Seeded exploration of loader schedules and configurations with a relative oracle (partial load = slice of full load, bit-exact at float32); '
+                   'generator termination is bounded (n_frames+5 chunks).',
+        level_note='TRR stride>1 with atom_indices is left out of generation (heap overflow in trr.pyx, known finding) so that the simulator stays deterministic; '
+                   'XTC/TRR/DTR pyx defects are open known findings.',
+        assumptions=COMMON_ASSUMPTIONS + ['the full load md.load(file) on a fresh handle is the reference, as the property defines partial loads relative to it'],
+    ),
+    'C19': dict(
+        engine='E2 writer/crash-sim', design_ref='DESIGN.md §3/C19',
+        technique='deterministic simulation with fault injection: seeded write partitions, ragged-write faults and process-kill snapshots at every operation boundary against an accepted-frames model',
+        rule='', components={}, expected_probes=[], level_text='', level_note='', assumptions=COMMON_ASSUMPTIONS,
+    ),
+    'C20': dict(
+        engine='E3 fs-sim', design_ref='DESIGN.md §3/C20',
+        technique='deterministic simulation: seeded save/open/read histories over a scratch tree against a path->bytes model with pinned clocks',
+        rule='', components={}, expected_probes=[], level_text='', level_note='', assumptions=COMMON_ASSUMPTIONS,
+    ),
+    'C03': dict(
+        engine='E4a object-history-sim', design_ref='DESIGN.md §3/C03',
+        technique='deterministic simulation: seeded operation histories over a pool of live trajectories with numpy reference models and injected scribbles',
+        rule='', components={}, expected_probes=[], level_text='', level_note='', assumptions=COMMON_ASSUMPTIONS,
+    ),
+    'C17': dict(
+        engine='E4a object-history-sim', design_ref='DESIGN.md §3/C17',
+        technique='deterministic simulation: seeded unit-cell assignment/transformation histories; conversion clause evaluated on every reached cell',
+        rule='', components={}, expected_probes=[], level_text='', level_note='', assumptions=COMMON_ASSUMPTIONS,
+    ),
+    'C04': dict(
+        engine='E4b topology-history-sim', design_ref='DESIGN.md §3/C04',
+        technique='deterministic simulation: seeded transformation and edit histories over a pool of topologies with plain-data models',
+        rule='', components={}, expected_probes=[], level_text='', level_note='', assumptions=COMMON_ASSUMPTIONS,
+    ),
+    'C08': dict(
+        engine='E5 omp-sim', design_ref='DESIGN.md §3/C08, Appendix A',
+        technique='deterministic simulation of the OpenMP team: link-time replacement of libgomp with a seeded baton scheduler, basic-block yield points, frame-schedule permutations',
+        rule='', components={}, expected_probes=[], level_text='', level_note='', assumptions=COMMON_ASSUMPTIONS,
+    ),
+}
+
+NOT_APPLICABLE = {
+    'C01': 'save->load fidelity is a function of (trajectory, cell, format, options); it has no schedule, crash point or history, and demanding anything under injected disk faults would exceed its quantifier (inputs x configurations). Deterministic simulation has nothing to decide.',
+    'C05': 'minimum-image distances are a pure function of coordinates, cell and pair list; nothing for a scheduler or fault injector to decide.',
+    'C06': 'optimal-superposition RMSD is a pure function of the two conformations; its only schedule-dependent clause (independence of parallel/threads) is decided under C08.',
+    'C07': 'angles and dihedrals are pure functions of coordinates, cell and index lists; no state, time, I/O or interleaving.',
+    'C09': 'invariance under rigid motion / lattice shifts is a metamorphic relation over inputs; no state, time, I/O or interleaving is involved.',
+    'C10': 'neighbour-set exactness is a pure function of coordinates, cell and cutoff; thread-independence of the list is decided under C08.',
+    'C11': 're-imaging is a pure function of (trajectory, cell, options); the inplace=False clause is a one-call input/output relation, not a history.',
+    'C12': 'quantifies over programs of the selection grammar evaluated on a topology; a parser has no schedule, fault or durable state.',
+    'C13': 'SASA correctness/additivity is a pure function of structure and parameters; the between-frame carry-over it mentions is a C08 phenomenon and is decided there.',
+    'C14': 'hydrogen-bond criteria are pure functions of the trajectory and thresholds.',
+    'C15': 'DSSP assignment is a pure function of each frame\'s backbone.',
+    'C16': 'descriptor formulas are pure functions of coordinates, masses, cell and options.',
+}
+
+BUILT.update(['C18', 'C02'])
